@@ -206,6 +206,8 @@ pub fn c10_families(tier: &str) -> Vec<(Family, bool)> {
         v.push((fam(US, 4, "u", &ORD_TWO), false));
         v.push((fam(US, 5, "u", &ORD_TWO), false));
         v.push((fam(US, 6, "u", &ORD_ONE), false));
+        v.push((fam(DSL, 4, "u", &ORD_ONE), false));
+        v.push((fam(DS, 5, "u", &ORD_ONE), false));
     } else {
         for n in 0..=3 {
             for k in kinds_all() {
